@@ -179,6 +179,9 @@ func (t *Collection) ExistAny(key interface{}) bool {
 // Exist returns true if the key exists in the collection
 func (t *Collection) Exist(key []byte) bool {
 	val, _ := t.GetItem(key, false)
+	if val != nil {
+		t.store.ItemDecRef(t, val) // Only existence is reported; drop GetItem's reference.
+	}
 	return val != nil
 }
 
@@ -503,6 +506,10 @@ func (t *Collection) VisitItemsRandom(
 	if err != nil {
 		return err
 	}
+	if si == nil {
+		return nil
+	}
+	defer t.store.ItemDecRef(t, si) // MinItem's reference.
 	err = t.VisitItemsAscendEx(si.Key, false, v)
 	if err != nil {
 		return err
@@ -579,6 +586,10 @@ func (t *Collection) VisitItemsAscendBlockEx(
 	if err != nil {
 		return err
 	}
+	if si == nil {
+		return nil
+	}
+	defer t.store.ItemDecRef(t, si) // MinItem's reference.
 	err = t.VisitItemsAscendEx(si.Key, false, v)
 	if err != nil {
 		return err
@@ -646,6 +657,7 @@ func (t *Collection) Len() (l int64, err error) {
 	if err != nil || si == nil {
 		return
 	}
+	defer t.store.ItemDecRef(t, si) // MinItem's reference.
 	err = t.VisitItemsAscendEx(si.Key, false, visitor)
 	return
 }
